@@ -31,8 +31,8 @@ class Func:
 FN_RE = re.compile(r"^fn (.*?)\((.*)\) -> (.*) \{$")
 FN_RE2 = re.compile(r"^fn (.*?)\((.*)\) \{$")
 BB_RE = re.compile(r"^    bb(\d+)( \(cleanup\))?: \{$")
-LET_RE = re.compile(r"^    let (?:mut )?(_\d+): (.*);$")
-DEBUG_RE = re.compile(r"^    debug (\S+) => (.*);$")
+LET_RE = re.compile(r"^\s+let (?:mut )?(_\d+): (.*);$")
+DEBUG_RE = re.compile(r"^\s+debug (\S+) => (.*);$")
 TARGETS_RE = re.compile(r"\[(.*)\]$")
 
 
